@@ -205,6 +205,7 @@ func (s *Snap) Digest() string {
 type StuckError struct {
 	Pending []string
 	Waited  time.Duration
+	Starved bool // no obligation is unmet and nothing happened: the scheduler loops just did not get to run, and neither did a canary goroutine of the harness
 }
 
 func (e *StuckError) Error() string {
@@ -344,6 +345,10 @@ type iterMark struct {
 func (w *World) liveLoops() []iterMark {
 	w.mu.Lock()
 	defer w.mu.Unlock()
+	return w.liveLoopsLocked()
+}
+
+func (w *World) liveLoopsLocked() []iterMark {
 	var res []iterMark
 	add := func(r *SimRunner) {
 		if r.LoopSeen && !r.LoopExited && !(r.hold && r.parked) {
@@ -400,6 +405,7 @@ func (w *World) curSeq() int {
 func (w *World) Settle() (*Snap, error) {
 	start := time.Now()
 	spins := 0
+	changes, stalls := 0, 0
 	for {
 		s := w.Snapshot()
 		if b := w.Blocked(); b != "" {
@@ -417,12 +423,30 @@ func (w *World) Settle() (*Snap, error) {
 					w.Stats.SettleWait += time.Since(start)
 					return s2, nil
 				}
+				changes++
+			} else {
+				stalls++
 			}
 		}
 		waited := time.Since(start)
 		if waited > SoftLimit+GraceLimit {
 			if len(pend) == 0 {
-				pend = []string{"state keeps changing"}
+				if changes == 0 && stalls > 0 && harnessStarved() {
+					// nothing is owed and nothing happened; the loops did not iterate because the process
+					// did not get the processor: no verdict
+					return s, &StuckError{Pending: []string{"the scheduler loops did not iterate and a canary goroutine of the harness was starved as well"}, Waited: waited, Starved: true}
+				}
+				if changes == 0 {
+					detail := ""
+					w.mu.Lock()
+					for _, m := range w.liveLoopsLocked() {
+						detail += fmt.Sprintf(" [loop of job %s: iteration %d, hold=%v parked=%v]", shortID(m.r.JobID), m.r.iter, m.r.hold, m.r.parked)
+					}
+					w.mu.Unlock()
+					pend = []string{"the scheduler loop of a running job does not iterate any more (" + fmt.Sprint(stalls) + " waits)" + detail}
+				} else {
+					pend = []string{"state keeps changing"}
+				}
 			}
 			return s, &StuckError{Pending: pend, Waited: waited}
 		}
@@ -447,4 +471,17 @@ func sameLoops(a, b []iterMark) bool {
 		}
 	}
 	return true
+}
+
+// harnessStarved measures whether goroutines of this process get to run at the moment: 200 goroutine hand-overs
+// with a short sleep each take a few milliseconds on a machine that has processor time to give.
+func harnessStarved() bool {
+	t0 := time.Now()
+	for i := 0; i < 200; i++ {
+		ch := make(chan struct{})
+		go func() { close(ch) }()
+		<-ch
+		time.Sleep(time.Microsecond)
+	}
+	return time.Since(t0) > 2*time.Second
 }
